@@ -66,6 +66,8 @@ func Main(args []string) int {
 			}
 		}
 		return rc
+	case "selftest":
+		return selftestMain(args[1:])
 	case "replay":
 		if len(args) < 2 {
 			fmt.Println("usage: gtverify replay <path>")
